@@ -57,8 +57,12 @@ def Sch.hasDefault : Sch → Bool | .mk _ _ _ _ _ _ _ _ _ _ _ d => d.isSome
 
 /-- `json_schema_kwargs`: `integer` is dropped from a type list that has `number` -/
 def normTypes (ts : List JT) : List JT :=
-  -- no de-duplication: `Union[C1, C2]` of two `{"type": "object"}` alternatives yields `["object", "object"]` (row 35)
   if ts.contains .integer && ts.contains .number then ts.filter (· != .integer) else ts
+
+/-- `list(dict.fromkeys(types))` in `_visited_union` (since the repair of row 35: `Union[C1, C2]` of two
+    `{"type": "object"}` alternatives no longer yields `["object", "object"]`) -/
+def dedupJT (ts : List JT) : List JT :=
+  ts.foldl (fun acc t => if acc.contains t then acc else acc ++ [t]) []
 
 def litJT (l : Lit) : JT := l.jclass.jt
 
@@ -82,7 +86,7 @@ def unionSchema (rs : List Sch) : Sch :=
   | [r] => r
   | rs =>
     if rs.any Sch.isEmpty then Sch.empty
-    else if rs.all Sch.onlyType then Sch.ofType' (normTypes (rs.flatMap Sch.type))
+    else if rs.all Sch.onlyType then Sch.ofType' (normTypes (dedupJT (rs.flatMap Sch.type)))
     else if rs.length == 2 && rs.all (fun r => !r.type.isEmpty) && rs.any (fun r => r.onlyType && r.type == [.null])
             && rs.all Sch.noLits then     -- (repair of row 28: not with `enum` / `const`)
       match rs.find? (fun r => !(r.onlyType && r.type == [.null])) with
